@@ -7,6 +7,7 @@ import (
 	"go/types"
 	"net/textproto"
 	"sort"
+	"strconv"
 	"strings"
 
 	"golang.org/x/tools/go/ssa"
@@ -128,7 +129,7 @@ func runC07(c *Ctx) {
 	if p == nil {
 		return
 	}
-	c.Explain = "E3 type-graph walk of conf.Conf (fields of type Credential/*Credential named *Pass; OptionalPaths excluded: not serialised by the API) against the stores of api.redactCredentials; dominator-chain control conditions of each redaction store; access-path roots of all stores (clone only); E5 backward origin of the data argument of every gin response call whose static type can carry a conf.Credential (or an opaque conf carrier); E5 forward use analysis of header values in httpp.dumpRequest with per-phi-edge branch literals; table literal check; module-wide who-writes of the table and absence of httputil dumps."
+	c.Explain = "E3 type-graph walk of conf.Conf (fields of type Credential/*Credential named *Pass; OptionalPaths excluded: not serialised by the API) against the stores of api.redactCredentials; dominator-chain control conditions of each redaction store; access-path roots of all stores (clone only); a store inside a new helper counts once per call chain, with the access path and the conditions of the call site (prop_gen_c07.go); E5 backward origin of the data argument of every gin response call whose static type can carry a conf.Credential (or an opaque conf carrier); E5 forward use analysis of header values in httpp.dumpRequest with per-phi-edge branch literals; table literal check; module-wide who-writes of the table and absence of httputil dumps."
 	cloneObligations(c, "C07.clone_independent.")
 	c.Assume = []string{
 		"conf.Conf.Clone is a deep copy (C11; its obligations are re-evaluated here as C07.clone_independent.*)",
@@ -168,23 +169,25 @@ func (c *Ctx) c07Redact(p *Prog) {
 	for _, r := range returnsOf(fn) {
 		c.Check("C07.redact.on_clone", name+": returns the clone", clone != nil && deref(retVal(r, 0)) == ssa.Value(clone), p.Pos(posOf(r, fn)), desc(retVal(r, 0)))
 	}
-	// stores: root and path
+	// stores: root and path. A store inside a new helper is one redaction per
+	// call chain (prop_gen_c07.go): its path continues at the call site's argument.
 	type red struct {
-		st   *ssa.Store
+		site c07Site
 		path string
 	}
 	byPath := map[string][]red{}
 	nSt := 0
-	for _, st := range allStores(fn) {
+	for _, site := range c07Sites(fn) {
+		st := site.st
 		if _, isAlloc := st.Addr.(*ssa.Alloc); isAlloc {
 			continue // local variable
 		}
 		nSt++
-		root, path := accessPath(st.Addr)
+		root, path := c07Path(st.Addr, site.chain)
 		onClone := clone != nil && root == ssa.Value(clone)
 		c.Check("C07.redact.on_clone", name+": store to "+path+" goes into the clone", onClone, p.Pos(st.Pos()), "root "+desc(root))
 		if onClone {
-			byPath[path] = append(byPath[path], red{st, path})
+			byPath[path] = append(byPath[path], red{site, path})
 		}
 	}
 	c.Floor("C07.redact.stores", nSt, 5)
@@ -195,7 +198,7 @@ func (c *Ctx) c07Redact(p *Prog) {
 			return
 		}
 		for _, a := range cc.Args {
-			if isParam(a, 0) {
+			if isParam(a, 0) && i.Parent() == fn {
 				c.Check("C07.redact.on_clone", name+": the live configuration is passed to "+calleeName(cc), false, p.Pos(i.Pos()), "")
 			}
 		}
@@ -204,9 +207,19 @@ func (c *Ctx) c07Redact(p *Prog) {
 	secrets := secretPaths(confT, map[string]bool{".OptionalPaths": true})
 	c.Floor("C07.redact.field", len(secrets), 5)
 	for _, sp := range secrets {
+		// the value written when the field is set: evaluated under the assumption
+		// that the field's own emptiness / nil tests fail (a constant, a named
+		// local, a helper returning placeholder-or-unchanged all give the placeholder)
+		ownOf := func(r red) (string, func(string) bool) {
+			d := ""
+			r.site.bound(func() { d = desc(r.site.st.Addr) })
+			return d, func(atom string) bool { return atom == "("+d+` == "")` || atom == "("+d+" == nil)" }
+		}
 		var good []red
 		for _, r := range byPath[sp] {
-			if s, ok := constString(r.st.Val); ok && s == placeholder && placeholder != "" {
+			_, own := ownOf(r)
+			vals := r.site.storedWhenSet(own)
+			if len(vals) == 1 && placeholder != "" && vals[0] == strconv.Quote(placeholder) {
 				good = append(good, r)
 			}
 		}
@@ -214,16 +227,18 @@ func (c *Ctx) c07Redact(p *Prog) {
 			continue
 		}
 		for _, r := range good {
-			d := desc(r.st.Addr)
+			_, own := ownOf(r)
 			var bad []string
-			for _, l := range controlLits(r.st.Block()) {
-				loop := strings.Contains(l.Atom, "next(range(") || strings.Contains(l.Atom, "phi↺")
-				own := !l.Pos && (l.Atom == "("+d+` == "")` || l.Atom == "("+d+" == nil)")
-				if !loop && !own {
+			for _, l := range r.site.controlLits() {
+				// loop conditions: the "more elements" flag of a range over a map, or the
+				// counter test of a range over a slice (a condition that merely mentions
+				// the range element, such as !elem.Pass.IsHashed(), is not one)
+				loop := (strings.HasPrefix(l.Atom, "next(range(") && strings.HasSuffix(l.Atom, "))#0")) || strings.Contains(l.Atom, "phi↺")
+				if !loop && !(!l.Pos && own(l.Atom)) {
 					bad = append(bad, l.String())
 				}
 			}
-			c.Check("C07.redact.guard", name+": redaction of conf.Conf"+sp+" depends only on that field being set", len(bad) == 0, p.Pos(r.st.Pos()), "extra conditions: "+joinS(bad))
+			c.Check("C07.redact.guard", name+": redaction of conf.Conf"+sp+" depends only on that field being set", len(bad) == 0, p.Pos(r.site.st.Pos()), "extra conditions: "+joinS(bad))
 		}
 	}
 	// loops cover every element: the ranges are over the clone's collections
@@ -439,6 +454,10 @@ func (c *Ctx) c07Dump(p *Prog) {
 				ok = true
 			case *ssa.Call:
 				if b, isB := x.Call.Value.(*ssa.Builtin); isB && b.Name() == "len" {
+					ok = true
+				}
+				// collecting the keys with a library function discloses no value (prop_gen_c07.go)
+				if c07KeysOnly(x) {
 					ok = true
 				}
 			case *ssa.DebugRef:
